@@ -120,6 +120,55 @@ def _splice(caller, bi, callee):
     blocks[bi]["term"] = {"k": "goto", "target": bbase, "line": line, "exp": term.get("exp", 0), "inl": callee["path"]}
 
 
+def _thread_try(raw):
+    """After inlining a helper that returns `Ok(v)` into a caller that applies `?` to the call, the caller tests a value
+    whose variant is known on that path.  As a compiler's jump threading would, each inlined return path that has just
+    built `Ok(..)`/`Some(..)` skips the `Try::branch` call and its switch and continues on the Continue edge with
+    ControlFlow::Continue(payload); other paths (Err, unknown) still go through the branch.  Only blocks created by the
+    inliner are rewritten."""
+    blocks = raw["blocks"]
+    n = 0
+    for ri in range(len(blocks)):
+        R = blocks[ri]
+        if not R["stmts"] or R["stmts"][-1].get("inl") != "ret" or R["term"].get("k") != "goto":
+            continue
+        ret = R["stmts"][-1]
+        dest = ret["p"]
+        src = ret["rv"]["op"]["p"]["l"]
+        C = blocks[R["term"]["target"]]
+        ct = C["term"]
+        if C["stmts"] or ct.get("k") != "call" or not (ct["func"].get("fn") or "").endswith("Try::branch") or len(ct.get("args", [])) != 1:
+            continue
+        a0 = ct["args"][0]
+        if a0.get("k") != "move" or a0.get("p") != dest or ct.get("target") is None or ct.get("dest") is None:
+            continue
+        D = blocks[ct["target"]]
+        dt = D["term"]
+        if len(D["stmts"]) != 1 or D["stmts"][0]["rv"].get("k") != "discr" or D["stmts"][0]["rv"]["p"] != ct["dest"] or dt.get("k") != "switch":
+            continue
+        e0 = [b for v, b in dt["values"] if v == 0]
+        if len(e0) != 1:
+            continue
+        for pi in range(len(blocks)):
+            P = blocks[pi]
+            if P["term"].get("k") != "goto" or P["term"]["target"] != ri or pi == ri:
+                continue
+            last = None
+            for st in P["stmts"]:
+                if st["k"] == "assign" and st["p"]["l"] == src:
+                    last = st if not st["p"]["proj"] else None
+            if last is None or last["rv"].get("k") != "agg" or (last["rv"].get("adt"), last["rv"].get("variant")) not in (("std::result::Result", "Ok"), ("std::option::Option", "Some")):
+                continue
+            var = last["rv"]["variant"]
+            payload = {"k": "move", "p": {"l": dest["l"], "proj": list(dest["proj"]) + [{"downcast": var, "vidx": last["rv"].get("vidx", 0)}, {"f": 0, "name": "0", "adt": last["rv"]["adt"], "ty": "?"}]}}
+            nb = {"stmts": copy.deepcopy(R["stmts"]) + [{"k": "assign", "p": copy.deepcopy(ct["dest"]), "rv": {"k": "agg", "agg": "adt", "adt": "std::ops::ControlFlow", "variant": "Continue", "vidx": 0, "field_names": ["0"], "gargs": "[]", "fields": [payload]}, "line": ret.get("line"), "exp": 0, "inl": "thread"}],
+                  "term": {"k": "goto", "target": e0[0], "line": ret.get("line"), "exp": 0}, "cleanup": False}
+            blocks.append(nb)
+            P["term"]["target"] = len(blocks) - 1
+            n += 1
+    return n
+
+
 def inline_new_helpers(doc, base=None, max_rounds=4):
     """rewrites doc in place; returns {helper path: number of call sites inlined}"""
     base = baseline() if base is None else base
@@ -152,6 +201,12 @@ def inline_new_helpers(doc, base=None, max_rounds=4):
                 bi += 1
         if not changed:
             break
+    touched = set()
+    for p, raw in bodies.items():
+        if any(b["term"].get("inl") for b in raw.get("blocks", [])):
+            touched.add(p)
+    for p in touched:
+        _thread_try(bodies[p])
     # a private helper with no remaining call is analysed where it was inlined
     still = set()
     import json
